@@ -87,7 +87,7 @@ def replay(scn):
         codec = A.LabelCodec(mixed=mixed)
         kinds = ["i"] * len(a_abs["dims"])
         kinds[d] = ak
-        for form in ("list", "ndarray", "axis"):
+        for form in ("list", "ndarray", "axis", "negpos"):
             a = A.gamma(a_abs, codec, kinds)
             before = A.snapshot(a)
             newv = codec.enc_seq(i["new"], nk)
@@ -104,6 +104,8 @@ def replay(scn):
                     res = a.reindex_axis(list(newv), axis=a_abs["dims"][d], **kw)
                 elif form == "ndarray":
                     res = a.reindex_axis(newv, axis=d, **kw)
+                elif form == "negpos":
+                    res = a.reindex_axis(newv, axis=d - a.ndim, **kw)
                 else:
                     res = a.reindex_axis(A.Axis(newv, a_abs["dims"][d]), **kw)
                 err = None
